@@ -8,17 +8,31 @@
   MIN / -1 is reported as overflow (None from checked, (MIN, true) / (0, true) from overflowing,
   MIN / 0 from wrapping, MAX from saturating_div)."
 
-  Status.  Everything below is proved for all digit widths `w ≥ 2` and digit counts `n ≥ 1`.
-  The multi-digit-divisor path of `BUint::div_rem_unchecked` calls `basecase_div_rem` (Knuth's
-  Algorithm D); its correctness is the single named obligation `KnuthD_correct w` (Lemmas/Div.lean).
-  * `u_divRem_spec_partial` is unconditional for divisors that fit one digit or are `≥` the dividend.
-  * All layered results take `hU : UDivSpec w n` ("`div_rem_unchecked` is right on `n`-digit
-    operands"), which is `UDivSpec_of_KnuthD hK …` in general and holds outright for `n = 1`
-    (`UDivSpec_one`) — so every theorem of this file is unconditional for single-digit integers.
+  Status.  Everything below is proved, unconditionally, for all digit widths `w ≥ 2` (the unsigned
+  part for `w ≥ 1`) and all digit counts `n ≥ 1`.  The multi-digit-divisor path of
+  `BUint::div_rem_unchecked` calls `basecase_div_rem` (Knuth's Algorithm D); its correctness is the
+  named statement `KnuthD_correct w` (Lemmas/Div.lean), proved in Lemmas/KnuthD.lean
+  (`KDL.knuthD_correct`: Theorem A and the two-digit test give `q ≤ q̂ ≤ q + 1`, multiply-subtract
+  borrows iff `q̂ = q + 1`, add-back, loop invariant, normalisation / de-normalisation shifts).
+  `udivspec : UDivSpec w n` ("`div_rem_unchecked` is right on all `n`-digit operands") is what the
+  layered results use.
 -/
-import Bnum.Lemmas.Div
+import Bnum.Lemmas.KnuthD
 namespace Bnum.C03
 open Bnum DivL
+
+/-- C03, the hard core: `basecase_div_rem` (Knuth's Algorithm D, exactly as written in
+    `src/buint/div.rs`) returns quotient and remainder -/
+theorem knuthD_correct {w : Nat} (hw : 1 ≤ w) : KnuthD_correct w := KDL.knuthD_correct hw
+
+/-- `BUint::div_rem_unchecked` is correct on all operands -/
+theorem udivspec {w n : Nat} (hw : 1 ≤ w) (hn : 1 ≤ n) : UDivSpec w n :=
+  UDivSpec_of_KnuthD (knuthD_correct hw) hw hn
+-- an instance of the hypotheses of `KnuthD_correct` (3 digits of 8 bits, two-digit divisor) and the
+-- kernel's evaluation of Algorithm D on it (this run takes the add-back branch D6)
+example : WF 8 3 [5, 8, 128] ∧ WF 8 3 [195, 128, 0] ∧ lastDigitIndex [195, 128, 0] ≠ 0 ∧
+    U 8 [195, 128, 0] < U 8 [5, 8, 128] := by decide
+example : KD.basecaseDivRem 8 [5, 8, 128] [195, 128, 0] 2 = .ok ([254, 0, 0], [139, 70, 0]) := by decide
 
 /-! ## 1. `digit::div_rem_wide` and short division -/
 
@@ -52,12 +66,13 @@ example : WF 8 3 [0x12, 0xff, 0x80] ∧ WF 8 3 [0x07, 0, 0] ∧ U 8 [0x07, 0, 0]
 example : UI.divRemUnchecked 8 [0x12, 0xff, 0x80] [0x07, 0, 0] = .ok ([148, 109, 18], [6, 0, 0]) := by
   decide
 
-/-- C03, unsigned core, all paths, relative to the one obligation `KnuthD_correct` -/
-theorem u_divRem_spec {w n : Nat} {a b : List Nat} (hK : KnuthD_correct w) (hw : 1 ≤ w)
+/-- C03, unsigned core, all four dispatch paths (zero dividend / `cmp` / short division /
+    Algorithm D) -/
+theorem u_divRem_spec {w n : Nat} {a b : List Nat} (hw : 1 ≤ w)
     (hn : 1 ≤ n) (ha : WF w n a) (hb : WF w n b) (hb0 : U w b ≠ 0) :
     ∃ q r, UI.divRemUnchecked w a b = .ok (q, r) ∧ WF w n q ∧ WF w n r ∧
       U w q = U w a / U w b ∧ U w r = U w a % U w b :=
-  UI.u_divRem_spec hK hw hn ha hb hb0
+  UI.u_divRem_spec (knuthD_correct hw) hw hn ha hb hb0
 /-- an instance of the multi-digit path (Algorithm D with an add-back step) evaluated by the kernel -/
 example : UI.divRemUnchecked 8 [5, 8, 128] [195, 128, 0] = .ok ([254, 0, 0], [139, 70, 0]) ∧
     8390661 / 32963 = 254 ∧ 8390661 % 32963 = 70 * 256 + 139 := by decide
@@ -79,8 +94,8 @@ example : (-7 : Int) = (-2) * 3 + (-1) ∧ (-7 : Int) = (-3) * 3 + 2 := by decid
 /-- C03, `BUint`: every div/rem form on a non-zero divisor returns `⌊a/b⌋` resp. `a mod b`
     (for unsigned integers truncation, Euclid and floor coincide), never `None`, never a panic,
     overflow flag `false` -/
-theorem u_forms {w n : Nat} {a b : List Nat} (hU : UDivSpec w n) (ha : WF w n a) (hb : WF w n b)
-    (hb0 : U w b ≠ 0) :
+theorem u_forms {w n : Nat} {a b : List Nat} (hw : 1 ≤ w) (hn : 1 ≤ n) (ha : WF w n a)
+    (hb : WF w n b) (hb0 : U w b ≠ 0) :
     ∃ q r, WF w n q ∧ WF w n r ∧ U w q = U w a / U w b ∧ U w r = U w a % U w b ∧
       UI.divRem w a b = .ok (q, r) ∧
       UI.checkedDiv w a b = .ok (some q) ∧ UI.checkedRem w a b = .ok (some r) ∧
@@ -92,7 +107,7 @@ theorem u_forms {w n : Nat} {a b : List Nat} (hU : UDivSpec w n) (ha : WF w n a)
       UI.wrappingDivEuclid w a b = .ok q ∧ UI.wrappingRemEuclid w a b = .ok r ∧
       UI.saturatingDiv w a b = .ok q ∧ UI.div w a b = .ok q ∧ UI.rem w a b = .ok r ∧
       UI.divEuclid w a b = .ok q ∧ UI.remEuclid w a b = .ok r ∧ UI.divFloor w a b = .ok q := by
-  obtain ⟨q, r, h, wq, wr, uq, ur⟩ := hU a b ha hb hb0
+  obtain ⟨q, r, h, wq, wr, uq, ur⟩ := udivspec hw hn a b ha hb hb0
   have hz : isZero b = false := (isZero_false_iff_U b).mpr hb0
   refine ⟨q, r, wq, wr, uq, ur, ?_⟩
   simp [UI.divRem, UI.checkedDiv, UI.checkedRem, UI.checkedDivEuclid, UI.checkedRemEuclid,
@@ -102,11 +117,11 @@ theorem u_forms {w n : Nat} {a b : List Nat} (hU : UDivSpec w n) (ha : WF w n a)
     Outcome.expect]
 
 /-- C03, `BUint::div_ceil`: rounds up; the `+ 1` never overflows in either build mode -/
-theorem u_divCeil_spec {w n : Nat} {a b : List Nat} (hU : UDivSpec w n) (ha : WF w n a)
-    (hb : WF w n b) (hb0 : U w b ≠ 0) (hw : 1 ≤ w) (hn : 1 ≤ n) (dbg : Bool) :
+theorem u_divCeil_spec {w n : Nat} {a b : List Nat} (hw : 1 ≤ w) (hn : 1 ≤ n) (ha : WF w n a)
+    (hb : WF w n b) (hb0 : U w b ≠ 0) (dbg : Bool) :
     ∃ q, UI.divCeil dbg w a b = .ok q ∧ WF w n q ∧
       (U w q : Int) = Spec.cdiv (U w a) (U w b) := by
-  obtain ⟨q, r, h, wq, wr, uq, ur⟩ := hU a b ha hb hb0
+  obtain ⟨q, r, h, wq, wr, uq, ur⟩ := udivspec hw hn a b ha hb hb0
   have hz : isZero b = false := (isZero_false_iff_U b).mpr hb0
   have hb0' : (U w b : Int) ≠ 0 := by omega
   unfold UI.divCeil UI.divRem
@@ -142,12 +157,12 @@ theorem nextMultiple_nat (x y : Nat) (hy : y ≠ 0) :
     omega
 
 /-- C03, `BUint::next_multiple_of` when the result is representable -/
-theorem u_nextMultipleOf_spec {w n : Nat} {a b : List Nat} (hU : UDivSpec w n) (ha : WF w n a)
-    (hb : WF w n b) (hb0 : U w b ≠ 0)
+theorem u_nextMultipleOf_spec {w n : Nat} {a b : List Nat} (hw : 1 ≤ w) (hn : 1 ≤ n)
+    (ha : WF w n a) (hb : WF w n b) (hb0 : U w b ≠ 0)
     (hrep : Spec.nextMultiple (U w a) (U w b) < M w n) (dbg : Bool) :
     ∃ r, UI.nextMultipleOf dbg w a b = .ok r ∧ WF w n r ∧
       (U w r : Int) = Spec.nextMultiple (U w a) (U w b) := by
-  obtain ⟨q, r, h, wq, wr, uq, ur⟩ := hU a b ha hb hb0
+  obtain ⟨q, r, h, wq, wr, uq, ur⟩ := udivspec hw hn a b ha hb hb0
   have hz : isZero b = false := (isZero_false_iff_U b).mpr hb0
   have hml := Nat.mod_lt (U w a) (show 0 < U w b by omega)
   unfold UI.nextMultipleOf UI.wrappingRem UI.checkedRem
@@ -165,12 +180,12 @@ theorem u_nextMultipleOf_spec {w n : Nat} {a b : List Nat} (hU : UDivSpec w n) (
     exact ⟨_, e1, e2, by rw [e3, c3]⟩
 
 /-- C03, `BUint::checked_next_multiple_of`: `None` exactly when the multiple is not representable -/
-theorem u_checkedNextMultipleOf_spec {w n : Nat} {a b : List Nat} (hU : UDivSpec w n)
+theorem u_checkedNextMultipleOf_spec {w n : Nat} {a b : List Nat} (hw : 1 ≤ w) (hn : 1 ≤ n)
     (ha : WF w n a) (hb : WF w n b) (hb0 : U w b ≠ 0) (dbg : Bool) :
     ∃ o, UI.checkedNextMultipleOf dbg w a b = .ok o ∧
       (o = none ↔ ¬ repU (M w n) (Spec.nextMultiple (U w a) (U w b))) ∧
       (∀ r, o = some r → WF w n r ∧ (U w r : Int) = Spec.nextMultiple (U w a) (U w b)) := by
-  obtain ⟨q, r, h, wq, wr, uq, ur⟩ := hU a b ha hb hb0
+  obtain ⟨q, r, h, wq, wr, uq, ur⟩ := udivspec hw hn a b ha hb hb0
   have hz : isZero b = false := (isZero_false_iff_U b).mpr hb0
   have hml := Nat.mod_lt (U w a) (show 0 < U w b by omega)
   unfold UI.checkedNextMultipleOf UI.checkedRem
@@ -221,17 +236,17 @@ theorem u_zero_divisor {w : Nat} {a b : List Nat} (hb0 : U w b = 0) (dbg : Bool)
 /-- C03, `BInt::div_rem_unchecked`: truncated quotient and remainder (sign of the dividend),
     no panic in either build mode -/
 theorem i_divRem_spec {w n : Nat} {a b : List Nat} (hw : 2 ≤ w) (hn : 1 ≤ n)
-    (hU : UDivSpec w n) (ha : WF w n a) (hb : WF w n b) (hb0 : S w b ≠ 0)
+    (ha : WF w n a) (hb : WF w n b) (hb0 : S w b ≠ 0)
     (hov : ¬ (S w a = -((M w n / 2 : Nat) : Int) ∧ S w b = -1)) (dbg : Bool) :
     ∃ q r, II.divRemUnchecked dbg w a b = .ok (q, r) ∧ WF w n q ∧ WF w n r ∧
       S w q = (S w a).tdiv (S w b) ∧ S w r = (S w a).tmod (S w b) :=
-  II.i_divRemUnchecked_spec hw hn hU ha hb hb0 hov dbg
+  II.i_divRemUnchecked_spec hw hn (udivspec (by omega) hn) ha hb hb0 hov dbg
 
 /-- C03, `BInt`: all div/rem forms on a non-zero divisor other than `MIN / -1`:
     truncation for `div`/`rem`, the Euclidean pair for `*_euclid`; never `None`, never a panic,
     overflow flag `false` -/
 theorem i_forms {w n : Nat} {a b : List Nat} (hw : 2 ≤ w) (hn : 1 ≤ n)
-    (hU : UDivSpec w n) (ha : WF w n a) (hb : WF w n b) (hb0 : S w b ≠ 0)
+    (ha : WF w n a) (hb : WF w n b) (hb0 : S w b ≠ 0)
     (hov : ¬ (S w a = -((M w n / 2 : Nat) : Int) ∧ S w b = -1)) (dbg : Bool) :
     ∃ q r qe re, WF w n q ∧ WF w n r ∧ WF w n qe ∧ WF w n re ∧
       S w q = (S w a).tdiv (S w b) ∧ S w r = (S w a).tmod (S w b) ∧
@@ -247,11 +262,11 @@ theorem i_forms {w n : Nat} {a b : List Nat} (hw : 2 ≤ w) (hn : 1 ≤ n)
       II.saturatingDiv dbg w a b = .ok q ∧ II.div dbg w a b = .ok q ∧ II.rem dbg w a b = .ok r ∧
       II.divEuclid dbg w a b = .ok qe ∧ II.remEuclid dbg w a b = .ok re := by
   have hw1 : 1 ≤ w := by omega
-  obtain ⟨q, h1, wq, sq⟩ := II.i_overflowingDiv_spec hw hn hU ha hb hb0 hov dbg
-  obtain ⟨r, h2, wr, sr⟩ := II.i_overflowingRem_spec hw hn hU ha hb hb0 hov dbg
-  obtain ⟨qe, h3, wqe, sqe⟩ := II.i_overflowingDivEuclid_spec hw hn hU ha hb hb0 hov dbg
-  obtain ⟨re, h4, wre, sre⟩ := II.i_overflowingRemEuclid_spec hw hn hU ha hb hb0 hov dbg
-  obtain ⟨q0, r0, h5, wq0, wr0, sq0, sr0⟩ := II.i_divRemUnchecked_spec hw hn hU ha hb hb0 hov dbg
+  obtain ⟨q, h1, wq, sq⟩ := II.i_overflowingDiv_spec hw hn (udivspec (by omega) hn) ha hb hb0 hov dbg
+  obtain ⟨r, h2, wr, sr⟩ := II.i_overflowingRem_spec hw hn (udivspec (by omega) hn) ha hb hb0 hov dbg
+  obtain ⟨qe, h3, wqe, sqe⟩ := II.i_overflowingDivEuclid_spec hw hn (udivspec (by omega) hn) ha hb hb0 hov dbg
+  obtain ⟨re, h4, wre, sre⟩ := II.i_overflowingRemEuclid_spec hw hn (udivspec (by omega) hn) ha hb hb0 hov dbg
+  obtain ⟨q0, r0, h5, wq0, wr0, sq0, sr0⟩ := II.i_divRemUnchecked_spec hw hn (udivspec (by omega) hn) ha hb hb0 hov dbg
   have eq0 : q0 = q := S_inj wq0 wq (by rw [sq0, sq])
   have er0 : r0 = r := S_inj wr0 wr (by rw [sr0, sr])
   subst eq0; subst er0
@@ -268,17 +283,17 @@ theorem i_forms {w n : Nat} {a b : List Nat} (hw : 2 ≤ w) (hn : 1 ≤ n)
 
 /-- C03, `BInt::div_floor`: rounds toward negative infinity (`Int.fdiv`) -/
 theorem i_divFloor_spec {w n : Nat} {a b : List Nat} (hw : 2 ≤ w) (hn : 1 ≤ n)
-    (hU : UDivSpec w n) (ha : WF w n a) (hb : WF w n b) (hb0 : S w b ≠ 0)
+    (ha : WF w n a) (hb : WF w n b) (hb0 : S w b ≠ 0)
     (hov : ¬ (S w a = -((M w n / 2 : Nat) : Int) ∧ S w b = -1)) (dbg : Bool) :
     ∃ q, II.divFloor dbg w a b = .ok q ∧ WF w n q ∧ S w q = (S w a).fdiv (S w b) :=
-  II.i_divFloor_spec hw hn hU ha hb hb0 hov dbg
+  II.i_divFloor_spec hw hn (udivspec (by omega) hn) ha hb hb0 hov dbg
 
 /-- C03, `BInt::div_ceil`: rounds toward positive infinity -/
 theorem i_divCeil_spec {w n : Nat} {a b : List Nat} (hw : 2 ≤ w) (hn : 1 ≤ n)
-    (hU : UDivSpec w n) (ha : WF w n a) (hb : WF w n b) (hb0 : S w b ≠ 0)
+    (ha : WF w n a) (hb : WF w n b) (hb0 : S w b ≠ 0)
     (hov : ¬ (S w a = -((M w n / 2 : Nat) : Int) ∧ S w b = -1)) (dbg : Bool) :
     ∃ q, II.divCeil dbg w a b = .ok q ∧ WF w n q ∧ S w q = Spec.cdiv (S w a) (S w b) :=
-  II.i_divCeil_spec hw hn hU ha hb hb0 hov dbg
+  II.i_divCeil_spec hw hn (udivspec (by omega) hn) ha hb hb0 hov dbg
 
 /-- what `Spec.cdiv` and `Spec.nextMultiple` mean: the ceiling, and the multiple of `b` at or beyond
     `a` in the direction of the sign of `b`, less than `|b|` away -/
@@ -303,19 +318,19 @@ theorem cdiv_nextMultiple_meaning (a b : Int) (hb : b ≠ 0) :
 
 /-- C03, `BInt::next_multiple_of` when the result is representable -/
 theorem i_nextMultipleOf_spec {w n : Nat} {a b : List Nat} (hw : 2 ≤ w) (hn : 1 ≤ n)
-    (hU : UDivSpec w n) (ha : WF w n a) (hb : WF w n b) (hb0 : S w b ≠ 0)
+    (ha : WF w n a) (hb : WF w n b) (hb0 : S w b ≠ 0)
     (hrep : repS (M w n) (Spec.nextMultiple (S w a) (S w b))) (dbg : Bool) :
     ∃ r, II.nextMultipleOf dbg w a b = .ok r ∧ WF w n r ∧
       S w r = Spec.nextMultiple (S w a) (S w b) :=
-  II.i_nextMultipleOf_spec hw hn hU ha hb hb0 hrep dbg
+  II.i_nextMultipleOf_spec hw hn (udivspec (by omega) hn) ha hb hb0 hrep dbg
 
 /-- C03, `BInt::checked_next_multiple_of`: `None` exactly when the multiple is not representable -/
 theorem i_checkedNextMultipleOf_spec {w n : Nat} {a b : List Nat} (hw : 2 ≤ w) (hn : 1 ≤ n)
-    (hU : UDivSpec w n) (ha : WF w n a) (hb : WF w n b) (hb0 : S w b ≠ 0) (dbg : Bool) :
+    (ha : WF w n a) (hb : WF w n b) (hb0 : S w b ≠ 0) (dbg : Bool) :
     ∃ o, II.checkedNextMultipleOf dbg w a b = .ok o ∧
       (o = none ↔ ¬ repS (M w n) (Spec.nextMultiple (S w a) (S w b))) ∧
       (∀ r, o = some r → WF w n r ∧ S w r = Spec.nextMultiple (S w a) (S w b)) :=
-  II.i_checkedNextMultipleOf_spec hw hn hU ha hb hb0 dbg
+  II.i_checkedNextMultipleOf_spec hw hn (udivspec (by omega) hn) ha hb hb0 dbg
 
 /-- C03: a zero divisor yields `None` from every checked form of `BInt` and a panic elsewhere -/
 theorem i_zero_divisor {w n : Nat} {a b : List Nat} (hw : 2 ≤ w) (hn : 1 ≤ n) (ha : WF w n a)
@@ -381,11 +396,6 @@ theorem i_min_neg_one {w n : Nat} {a b : List Nat} (hw : 2 ≤ w) (hn : 1 ≤ n)
 
 /-! ## 5. the hypotheses are satisfiable; concrete evaluations by the kernel -/
 
-/-- `UDivSpec` holds outright for single-digit integers (`n = 1`), so sections 3–4 are unconditional
-    there; for `n ≥ 2` it follows from `KnuthD_correct w` -/
-theorem udivspec_one {w : Nat} (hw : 1 ≤ w) : UDivSpec w 1 := UDivSpec_one hw
-theorem udivspec_of_knuthD {w n : Nat} (hK : KnuthD_correct w) (hw : 1 ≤ w) (hn : 1 ≤ n) :
-    UDivSpec w n := UDivSpec_of_KnuthD hK hw hn
 
 -- operands satisfying the hypotheses of `u_forms` / `i_forms` (w = 8, n = 2: −7 and 2)
 example : WF 8 2 [0xf9, 0xff] ∧ WF 8 2 [0x02, 0x00] ∧ S 8 [0xf9, 0xff] = -7 ∧ S 8 [0x02, 0x00] = 2 ∧
